@@ -211,8 +211,10 @@ def shard(desc):
         raise _Slow()
 
     signal.signal(signal.SIGALRM, _alarm)
+    scribbled = 0
     for item in desc["items"]:
         d = datetime.date.fromisoformat(item["date"])
+        note = " (earlier returned environments of this process were edited in place before)" if scribbled else ""
         try:
             signal.alarm(90)  # a set-up normally takes 1-3 s; a budget hit is "inconclusive", not a verdict
             try:
@@ -230,8 +232,8 @@ def shard(desc):
         sh.evaluations += 1
         fails, ref = compare_env(d, params)
         for kind, path, r, c in fails:
-            report(f"{kind}:{param_key(path)}", f"{d}: {'.'.join(map(str, path))}: law says {r!r}, environment has {c!r}",
-                   {"date": str(d), "kind": "env"})
+            report(f"{kind}:{param_key(path)}", f"{d}: {'.'.join(map(str, path))}: law says {r!r}, environment has {c!r}{note}",
+                   {"date": str(d), "kind": "env", "after_scribble": bool(scribbled)})
         rfails, exp = compare_rules(d, functions)
         for key, what in rfails:
             report(key, what, {"date": str(d), "kind": "rules"})
@@ -266,7 +268,46 @@ def shard(desc):
         sh.sample({"date": str(d), "leaves_compared": len(ref), "rules_compared": len(exp),
                    "is_change_date": bool(item.get("is_change"))}, limit=2)
         sh.extra["leaves_compared_max"] = max(sh.extra.get("leaves_compared_max", 0), len(ref))
+        # history: the environment is a function of the date alone.  Everything mutable in the objects just
+        # returned is now overwritten in place; the environments set up afterwards in this process are
+        # compared with the reference like any other, so state shared between calls shows as a wrong value.
+        scribbled += scribble(params)
+        functions.clear()
+        sh.classes["set-up-after-scribbled-environment"] += bool(note)
+    sh.extra["leaves_scribbled"] = scribbled
     return sh
+
+
+def scribble(obj):
+    """Overwrite every mutable numeric leaf of a params object in place; returns the number of writes."""
+    n = 0
+    if isinstance(obj, dict):
+        for k in list(obj):
+            v = obj[k]
+            if isinstance(v, (dict, list, np.ndarray)):
+                n += scribble(v)
+            elif isinstance(v, bool):
+                obj[k] = not v
+                n += 1
+            elif isinstance(v, (int, float, np.integer, np.floating)):
+                obj[k] = -7.25 - 3 * float(v)
+                n += 1
+            elif isinstance(v, str):
+                obj[k] = v + "~"
+                n += 1
+        obj["vf_scribble"] = 1
+    elif isinstance(obj, list):
+        for i, v in enumerate(obj):
+            if isinstance(v, (dict, list, np.ndarray)):
+                n += scribble(v)
+            elif isinstance(v, (int, float)) and not isinstance(v, bool):
+                obj[i] = -7.25 - 3 * float(v)
+                n += 1
+        obj.append(-1)
+    elif isinstance(obj, np.ndarray) and obj.dtype.kind in "fiu" and obj.flags.writeable:
+        obj[...] = -7 - 3 * obj
+        n += int(obj.size)
+    return n
 
 
 def plan(tier, seed):
